@@ -241,6 +241,15 @@ Theorem C17_generated_Range_is_model : forall (c : GenBuildParams.CertificateBui
   | Err _ => GenBuildParams.CertificateBuildParams_Range c f t = (None, GoNum.EFail)
   end.
 Proof. exact GenAgreeBuildParams.Range_agree. Qed.
+(* ... and two successful calls of the translated Range in a row return what ONE call to the final range returns (same
+   abstraction: same range, same bridges and claims in the same order) *)
+Theorem C17_generated_Range_compose : forall (c c1 c2 : GenBuildParams.CertificateBuildParams) (f1 t1 f2 t2 : N),
+  events_in_range (GenAgreeBuildParams.abs c) ->
+  GenBuildParams.CertificateBuildParams_Range c f1 t1 = (Some c1, GoNum.EOK) ->
+  GenBuildParams.CertificateBuildParams_Range c1 f2 t2 = (Some c2, GoNum.EOK) ->
+  exists c2', GenBuildParams.CertificateBuildParams_Range c f2 t2 = (Some c2', GoNum.EOK) /\
+              GenAgreeBuildParams.abs c2' = GenAgreeBuildParams.abs c2.
+Proof. intros c c1 c2 f1 t1 f2 t2. exact (GenAgreeBuildParams.Range_compose c f1 t1 c1 f2 t2 c2). Qed.
 (* ... and it keeps the selected bridges and claims WHOLE and in order (the elements of the generated records, not their abstraction) *)
 Theorem C17_generated_Range_keeps_elements_whole : forall (c : GenBuildParams.CertificateBuildParams) (f t : N),
   GenBuildParams.CertificateBuildParams_Range c f t =
@@ -390,7 +399,7 @@ Print Assumptions C17_all_adapt.
 Print Assumptions C17_all_gap.
 Print Assumptions C17_generated_gap_is_model.
 Print Assumptions C17_generated_gap_empty_iff_touching.
-Definition C17_all_generated_params := (C17_generated_Range_is_model, C17_generated_Range_keeps_elements_whole, C17_generated_EstimatedSize_is_model,
+Definition C17_all_generated_params := (C17_generated_Range_is_model, C17_generated_Range_compose, C17_generated_Range_keeps_elements_whole, C17_generated_EstimatedSize_is_model,
   C17_generated_counts_are_model, C17_generated_nil_receiver, C17_generated_MaxDepositCount_is_last,
   C17_generated_limitCertSize_is_model, C17_generated_limitCertSize_returns_the_limit,
   C17_generated_AdaptCertificate_is_model, C17_generated_AdaptCertificate_clamps,
